@@ -13,6 +13,8 @@
 mon_stats g_mon;
 int g_mon_enabled = 1;
 int g_mon_strict_info = 0;
+int g_mon_i3_strict = 0;      /* C03 only: report I3 violations (other properties just count them) */
+int g_yield_prune_inner = 0; /* case parameter: also yield inside one interchange of pxgstrf_pruneL */
 
 static int      s_mode = SCHED_NONE, s_P = 1, s_strategy = 0, s_param = 0, s_delay_us = 100;
 static uint64_t s_seed = 1, s_rng;
@@ -47,6 +49,7 @@ static int   m_curpanel[MAXP], m_curw[MAXP];
 static int  *m_chain[MAXP]; static int m_nchain[MAXP];
 static int   m_dfs_open[MAXP], m_prune_open[MAXP];
 static unsigned char *m_inchain[MAXP];
+static long m_reading_rep[MAXP]; static int m_reading_copy[MAXP]; static long m_pruning_rep[MAXP]; static unsigned char *m_published;
 static unsigned char *m_upd;              /* hash set for (panel,krep) pairs */
 static long  m_upd_cap = 0;
 static int   m_threads_took[MAXP];
@@ -66,8 +69,8 @@ static void mon_reset(void)
 {
     memset(&g_mon, 0, sizeof g_mon); g_mon.min_slack = -1;
     m_failed = 0; m_sh = NULL; m_etree = NULL; m_n = 0; m_have_map = 0; m_taken_cnt = 0; m_npanels = 0;
-    for (int i = 0; i < MAXP; ++i) { m_curpanel[i] = -1; m_nchain[i] = 0; m_dfs_open[i] = 0; m_prune_open[i] = 0; m_threads_took[i] = 0; m_inchain[i] = NULL; }
-    m_upd = NULL; m_slot_end = NULL;
+    for (int i = 0; i < MAXP; ++i) { m_curpanel[i] = -1; m_nchain[i] = 0; m_dfs_open[i] = 0; m_prune_open[i] = 0; m_threads_took[i] = 0; m_inchain[i] = NULL; m_reading_rep[i] = -1; m_reading_copy[i] = 0; m_pruning_rep[i] = -1; }
+    m_upd = NULL; m_slot_end = NULL; m_published = NULL;
 }
 
 static int upd_seen(long panel, long krep)
@@ -92,6 +95,7 @@ static void mon_parinit(long n, const int_t *etree, const pxgstrf_shared_t *sh)
     m_done_seen = hx_calloc(n + 1, sizeof(int));
     for (int p = 0; p < MAXP; ++p) { m_chain[p] = hx_calloc(n + 1, sizeof(int)); }
     m_upd_cap = 8 * n * 8 + 1024; m_upd = hx_calloc(m_upd_cap, sizeof(uint64_t));
+    m_published = hx_calloc(n + 1, 1);
     /* panels */
     int np = 0, nrel = 0;
     for (int i = 0; i < n; ) {
@@ -171,7 +175,30 @@ static void mon_event(int kind, long pnum, long a, long b, long c, const void *c
     if (s_trace) { char tb[120]; int L = snprintf(tb, sizeof tb, "EV k=%d p=%ld a=%ld b=%ld c=%ld\n", kind, pnum, a, b, c); ssize_t w_ = write(2, tb, L); (void)w_; }
     const pxgstrf_shared_t *sh = m_sh;
     int n = m_n;
+    /* I3: a thread is 'reading' the subscript list of supernode-rep r from a DFS_STEP until its next event of another kind */
+    if (pnum >= 0 && pnum < MAXP && kind != SLUV_DFS_STEP && kind != SLUV_AWAIT_SPIN) m_reading_rep[pnum] = -1;
     switch (kind) {
+    case SLUV_DFS_STEP:
+        if (pnum < 0 || pnum >= MAXP) break;
+        g_mon.dfs_steps++;
+        m_reading_rep[pnum] = a; m_reading_copy[pnum] = (int)b;
+        if (b && s_mode == SCHED_CONTROLLED && m_published && a >= 0 && a < m_n && !m_published[a] && g_mon_i3_strict)
+            mon_fail("C03:I3_pruned_list_read_before_published", "thread %ld traverses the pruned subscript list of supernode rep %ld (column %ld) although no thread has finished rewriting it yet (the 'pruned' flag became visible too early)", pnum, a, c);
+        /* strict only under the controlled scheduler: in free mode an action and the recording of its event are not atomic */
+        if (b && s_mode == SCHED_CONTROLLED) for (int t = 0; t < MAXP; ++t) if (t != pnum && m_pruning_rep[t] == a)
+            { g_mon.double_prune++; hx_ctx_add("concurrent_prune"); if (g_mon_i3_strict) mon_fail("C03:I3_dfs_reads_list_being_rewritten", "thread %ld starts traversing the pruned subscript list of supernode rep %ld (column %ld) while thread %d is still rewriting it (two threads prune the same supernode)", pnum, a, c, t); }
+        break;
+    case SLUV_PRUNE_STEP:
+        if (pnum < 0 || pnum >= MAXP) break;
+        if (b == 0) { m_pruning_rep[pnum] = a; g_mon.prune_steps++;
+            if (s_mode == SCHED_CONTROLLED) for (int t = 0; t < MAXP; ++t) if (t != pnum && m_reading_rep[t] == a && m_reading_copy[t] == 1)
+                { g_mon.double_prune += 1000; if (g_mon_i3_strict) mon_fail("C03:I3_prune_rewrites_list_being_read", "thread %ld starts rewriting the second subscript list of supernode rep %ld while thread %d is traversing that list", pnum, a, t); }
+            for (int t = 0; t < MAXP; ++t) if (t != pnum && m_reading_rep[t] == a) { g_mon.prune_during_read++; break; }
+            if (s_mode == SCHED_CONTROLLED) for (int t = 0; t < MAXP; ++t) if (t != pnum && m_pruning_rep[t] == a)
+                { g_mon.double_prune++; hx_ctx_add("concurrent_prune"); if (g_mon_i3_strict) mon_fail("C03:I3_dfs_reads_list_being_rewritten", "thread %ld starts traversing the pruned subscript list of supernode rep %ld (column %ld) while thread %d is still rewriting it (two threads prune the same supernode)", pnum, a, c, t); } }
+        else if (b == 2) { m_pruning_rep[pnum] = -1; if (m_published && a >= 0 && a < m_n) m_published[a] = 1; }
+        else if (b == 3) { for (int t = 0; t < MAXP; ++t) if (t != pnum && m_pruning_rep[t] == a) { hx_ctx_add("concurrent_prune_interleaved"); g_mon.double_prune += 1000000; } }
+        break;
     case SLUV_PRESETMAP: mon_presetmap(a, (const GlobalLU_t *)ctx); break;
     case SLUV_PARINIT_END: mon_parinit(a, (const int_t *)b, (const pxgstrf_shared_t *)ctx); break;
     case SLUV_SCHED_PICK: {
@@ -361,19 +388,23 @@ static int is_yield_kind(int k)
     switch (k) {
     case SLUV_SCHED_ENTER: case SLUV_SCHED_EXIT: case SLUV_RELEASE_PRE: case SLUV_RELEASE_POST: case SLUV_PANEL_DONE_PRE:
     case SLUV_PANEL_DONE: case SLUV_NEWNSUPER: case SLUV_U_ALLOC: case SLUV_LSUB_ALLOC: case SLUV_DYN_SETMAP: case SLUV_AWAIT_SPIN:
-    case SLUV_PRUNE_BEGIN: case SLUV_PRUNE_END: case SLUV_COL_BEGIN: case SLUV_DFS_BEGIN: case SLUV_DFS_END: return 1;
+    case SLUV_PRUNE_BEGIN: case SLUV_PRUNE_END: case SLUV_COL_BEGIN: case SLUV_DFS_BEGIN: case SLUV_DFS_END: case SLUV_DFS_STEP: case SLUV_PRUNE_STEP: return 1;
     default: return 0;
     }
 }
 
 void slu_mt_verif_event(int kind, long pnum, long a, long b, long c, const void *ctx)
 {
+    /* the point inside one interchange of pxgstrf_pruneL is inert unless the case asks for it: even taking the monitor lock there
+       widens the window of the listed finding D17 (concurrent prune of one supernode) enough to hit it in free-running mode */
+    if (kind == SLUV_PRUNE_STEP && b == 3 && !g_yield_prune_inner) return;
     if (pnum < 0) pnum = tl_pnum;
     if (s_mode == SCHED_CONTROLLED && active && pnum >= 0 && pnum < MAXP && reg[pnum]) {
         /* only the token holder runs: no lock needed for the monitor */
         if (g_mon_enabled) mon_event(kind, pnum, a, b, c, ctx);
         last_kind[pnum] = kind; last_a[pnum] = a; last_b[pnum] = b;
         if (!is_yield_kind(kind)) return;
+        if (kind == SLUV_PRUNE_STEP && b == 3 && !g_yield_prune_inner) return;
         int spinning = (kind == SLUV_AWAIT_SPIN) || (kind == SLUV_SCHED_EXIT && a == EMPTY);
         if (spinning) { g_mon.spins++; blocked[pnum] = 1; }
         else if (kind != SLUV_SCHED_ENTER) { idle_rounds = 0; for (int t = 0; t < s_P; ++t) blocked[t] = 0; }
@@ -389,7 +420,7 @@ void slu_mt_verif_event(int kind, long pnum, long a, long b, long c, const void 
     /* free / none mode (or events from the master thread before workers exist) */
     if (g_mon_enabled) { pthread_mutex_lock(&mm); mon_event(kind, pnum, a, b, c, ctx); pthread_mutex_unlock(&mm); }
     if (kind == SLUV_AWAIT_SPIN) __atomic_add_fetch(&g_mon.spins, 1, __ATOMIC_RELAXED);
-    if (s_mode == SCHED_FREE && active && is_yield_kind(kind)) {
+    if (s_mode == SCHED_FREE && active && is_yield_kind(kind) && !(kind == SLUV_PRUNE_STEP && b == 3 && !g_yield_prune_inner)) {
         if (!tl_rng) tl_rng = s_seed * 0x2545F4914F6CDD1Dull + (uint64_t)(pnum + 2) * 0x9E3779B97F4A7C15ull + 1;
         uint64_t r = sm64(&tl_rng);
         int q = s_param > 0 ? s_param : 4;
